@@ -142,12 +142,39 @@ def scen(w, variant="exit"):
             w.cover("merged-command")
 
 
+CORPUS_PROGRAMS = [
+    # (region rectangle, program) -- fixed concrete programs whose interesting values only arise through IEEE
+    # round-off or are far outside the usual range; executed with real floats on the pristine code (replay
+    # interpreter), NOT decided by the solver (real arithmetic has no round-off), see DESIGN 5.1 / C07
+    ((40, 40, 60, 60), ["G28", "G1 X10 Y10 Z0.3 E1 F3000", "G1 X50 Y50", "G91", "G1 Z-0.2", "G1 Z-0.1", "G90", "G1 X80 Y80"]),
+    ((40, -10, 60, 10), ["G28", "G1 X10 Y0.3 Z1 E1 F3000", "G91", "G1 Y-0.2", "G1 Y-0.1", "G90", "G1 X50", "G1 X80"]),
+    ((40, 40, 60, 60), ["G28", "G1 X10 Y10 Z1 E1 F3000", "G1 X50 Y50", "G1 X20000000000000000 Y5"]),
+    ((40, 40, 60, 60), ["G28", "G1 X10 Y10 Z1 E0.00003 F0.00002", "G1 X50 Y50", "G1 E0.00001", "M204 P0.00001 T0", "G1 X80 Y80.00005"]),
+    ((40, 40, 60, 60), ["G28", "G20", "G1 X0.3 Y0.3 Z0.01 E0.001 F60", "G1 X2 Y2", "G1 E0.0005", "G1 X3 Y3 Z0.02"]),
+]
+
+
+def scen_corpus(w, index=0):
+    """Concrete corpus (see CORPUS_PROGRAMS): every command the filter synthesises must be well-formed plain decimal."""
+    rect, program = CORPUS_PROGRAMS[index]
+    pipe = pl.Pipe(w, False, extended={"M204": "merge", "M205": "merge"}, fmt_fork=True)
+    pipe.add_region(pl.RegionSpec("rect", tuple(float(v) for v in rect), "r0"))
+    for text in program:
+        rec = pipe.feed(text, catch=False)
+        for e in rec.emitted:
+            if e != text:
+                check_wellformed(w, pipe, e, "", "corpus program %d %r -> %r" % (index, program, rec.emitted))
+
+
+CORPUS = [("corpus", {"index": i}, {}) for i in range(len(CORPUS_PROGRAMS))]
+
+
 def validate():
     from symx import validate as v
     return v.validate_float_format()
 
 
-SCENARIOS = {"exit": scen, "retract": scen, "merge": scen}
+SCENARIOS = {"exit": scen, "retract": scen, "merge": scen, "corpus": scen_corpus}
 
 META = {
     "assumptions": [
